@@ -48,6 +48,9 @@ def run(ctx):
     ctx.rule("U4", "Burst2Beat register widths cover the AXI-legal range: beat_count >= the widest `len` field of ax_description; "
                    "beat_size holds 1 << 7 (1024-bit beats); beat_offset is signed with >= 12 magnitude bits (a burst stays inside a "
                    "4KB page, AXI A3.4.1) ; beat_wrap holds 15 << 7 (WRAP bursts have at most 16 beats)", min_sites=5)
+    ctx.rule("U5", "width-conversion geometry: ratio is wide // narrow for the converter's direction; the down-converter starts the "
+                   "narrow burst at the wide word (low log2(wide bytes) address bits cleared), clamps size at the narrow bus; data/strb "
+                   "converters run wide->narrow for writes and narrow->wide for reads (up-converter: the reverse)", min_sites=8)
     ctx.rule("PRIO", "no dead driver", min_sites=1)
 
     # ================================================================ U1
@@ -195,6 +198,66 @@ def run(ctx):
         ok = bu == {f"(axi_from.{ch}.burst == BURST_FIXED)": "BURST_INCR", f"(axi_from.{ch}.burst == BURST_INCR)": "BURST_INCR",
                     f"(axi_from.{ch}.burst == BURST_WRAP)": "BURST_WRAP", f"(axi_from.{ch}.burst == BURST_RESERVED)": "BURST_RESERVED"}
         ctx.ob("U2", AF, "AXIDownConverter", f"{ch}: FIXED -> INCR, others kept", ok, "" if ok else f"{bu}")
+    # ---- U5 geometry of the width conversion (which side is wide)
+    def side(fx, name):
+        d = fx.localdefs.get(name)
+        t = norm(d) if d is not None else ""
+        for sd in ("from", "to"):
+            if t in (f"len(axi_{sd}.r.data)", f"len(axi_{sd}.w.data)"):
+                return sd
+        return None
+    fx = fx_of(ctx, AF, "AXIDownConverter")
+    ws = {n: side(fx, n) for n in fx.localdefs if side(fx, n)}
+    wide = [n for n, sd in ws.items() if sd == "from"]
+    narrow = [n for n, sd in ws.items() if sd == "to"]
+    ctx.need(len(wide) == 1 and len(narrow) == 1, f"AXIDownConverter: width locals not recognised ({ws})")
+    wide, narrow = wide[0], narrow[0]
+    rt = norm(fx.localdefs.get("ratio", ast.Constant(value=None)))
+    ok = rt in (f"int({wide} // {narrow})", f"{wide} // {narrow}")
+    ctx.ob("U5", AF, "AXIDownConverter", "ratio = master-side width // slave-side width", ok, "" if ok else f"ratio = {rt}")
+    for ch in ("aw", "ar"):
+        full = [a for a in fx.find(domain="comb", target=f"axi_to.{ch}.addr")]
+        low = [a for a in fx.find(domain="comb") if a.t.startswith(f"axi_to.{ch}.addr[:")]
+        ok = len(full) == 1 and full[0].v == f"axi_from.{ch}.addr" and len(low) == 1 and low[0].v == "0" and not low[0].guards and \
+            low[0].t == f"axi_to.{ch}.addr[:log2_int({wide} // 8)]" and fx.assigns.index(low[0]) > fx.assigns.index(full[0])
+        ctx.ob("U5", AF, "AXIDownConverter", f"{ch}: the narrow burst starts at the wide word (low log2(wide bytes) address bits cleared, after the copy)", ok,
+               "" if ok else f"{[(a.t, a.v) for a in full + low]}: the {f'log2_int({wide} // 8)'} low bits select the byte lane inside the "
+                             f"master-side word; the data converter emits lanes from 0, so the converted burst must start at the word base",
+               (low or full)[0].line if (low or full) else 0)
+        sz = [a for a in fx.find(domain="comb", target=f"axi_to.{ch}.size") if a.v != f"axi_from.{ch}.size"]
+        ok = len(sz) == 1 and sz[0].v == f"log2_int({narrow} // 8)" and \
+            B.equivalent(sz[0].eff(), B.Not(B.from_expr(f"axi_from.{ch}.size <= log2_int({narrow} // 8)")))
+        ctx.ob("U5", AF, "AXIDownConverter", f"{ch}: size clamped at log2(narrow bytes)", ok, "" if ok else f"{[(a.v, a.gtext()) for a in sz]}")
+    conv = {i.name: i for i in fx.insts if i.cls.endswith("StrideConverter") and i.call is not None}
+
+    def widths(i):
+        kw = {k.arg: norm(k.value) for k in i.call.keywords}
+        return kw.get("description_from", ""), kw.get("description_to", "")
+    ok = set(conv) == {"w_converter", "r_converter"}
+    if ok:
+        wf, wt = widths(conv["w_converter"])
+        rf, rt_ = widths(conv["r_converter"])
+        ok = f"('data', {wide})" in wf and f"('strb', {wide} // 8)" in wf and f"('data', {narrow})" in wt and f"('strb', {narrow} // 8)" in wt and \
+            f"('data', {narrow})" in rf and f"('data', {wide})" in rt_
+    ctx.ob("U5", AF, "AXIDownConverter", "write data wide -> narrow (data and strb), read data narrow -> wide", ok,
+           "" if ok else f"{ {k: widths(v) for k, v in conv.items()} }")
+    fx = fx_of(ctx, AF, "AXIUpConverter")
+    ws = {n: side(fx, n) for n in fx.localdefs if side(fx, n)}
+    nar = [n for n, sd in ws.items() if sd == "from"]
+    wid = [n for n, sd in ws.items() if sd == "to"]
+    ctx.need(len(nar) == 1 and len(wid) == 1, f"AXIUpConverter: width locals not recognised ({ws})")
+    rt = norm(fx.localdefs.get("ratio", ast.Constant(value=None)))
+    ok = rt in (f"int({wid[0]} // {nar[0]})", f"{wid[0]} // {nar[0]}")
+    ctx.ob("U5", AF, "AXIUpConverter", "ratio = slave-side width // master-side width", ok, "" if ok else f"ratio = {rt}")
+    conv = {i.name: i for i in fx.insts if i.cls.endswith("StrideConverter") and i.call is not None}
+    ok = set(conv) == {"w_converter", "r_converter"}
+    if ok:
+        wf, wt = widths(conv["w_converter"])
+        rf, rt_ = widths(conv["r_converter"])
+        ok = f"('data', {nar[0]})" in wf and f"('strb', {nar[0]} // 8)" in wf and f"('data', {wid[0]})" in wt and f"('strb', {wid[0]} // 8)" in wt and \
+            f"('data', {wid[0]})" in rf and f"('data', {nar[0]})" in rt_
+    ctx.ob("U5", AF, "AXIUpConverter", "write data narrow -> wide (data and strb), read data wide -> narrow", ok,
+           "" if ok else f"{ {k: widths(v) for k, v in conv.items()} }")
 
     # ================================================================ U3
     fx = fx_of(ctx, AF, "AXIDownConverter")
